@@ -314,6 +314,9 @@ impl Case {
 /// no parser is always inside; one that ends open must have no didSave/didClose in the history, its didOpens
 /// carry the final language, and the newest version is carried with the newest text and only with it.
 fn batch_in_class(c: &Case, u: Url) -> bool {
+    if c.ops.iter().any(is_command) {
+        return race_in_class(c, u);
+    }
     if !c.ops.iter().all(|o| matches!(o, Op::Open(..) | Op::Change(..) | Op::Save(_) | Op::Close(_))) {
         return false;
     }
@@ -340,6 +343,43 @@ fn batch_in_class(c: &Case, u: Url) -> bool {
         Op::Open(u2, l, t, v) if *u2 == u => *l == lang && *v <= vn && ((*v == vn) == (*t == tn)),
         Op::Change(u2, t, v) if *u2 == u => *v <= vn && ((*v == vn) == (*t == tn)),
         Op::Save(u2) | Op::Close(u2) => *u2 != u,
+        _ => true,
+    })
+}
+
+fn is_command(o: &Op) -> bool {
+    matches!(o, Op::AddUser(..) | Op::AddFile(..) | Op::Cfg(..))
+}
+
+/// Is document u of a history with commands inside the class of C09_cmd_race_exact_partial (Model/C09Race.v: race_okb,
+/// re-stated here for a case that starts with nothing open; the driver prints its own verdict and the two must
+/// agree)?  All messages are didOpen / didChange / add-word commands / configuration changes; u is open at the end
+/// as plain text or markdown; its didOpens carry the final language, and the newest version is carried with the
+/// newest text and only with it.
+fn race_in_class(c: &Case, u: Url) -> bool {
+    if !c.ops.iter().all(|o| matches!(o, Op::Open(..) | Op::Change(..)) || is_command(o)) {
+        return false;
+    }
+    let mut cur: Option<(Lang, Text, usize)> = None;
+    for o in &c.ops {
+        match o {
+            Op::Open(u2, l, t, v) if *u2 == u => cur = Some((*l, *t, *v)),
+            Op::Change(u2, t, v) if *u2 == u => {
+                if let Some(x) = cur.as_mut() {
+                    x.1 = *t;
+                    x.2 = *v;
+                }
+            }
+            _ => {}
+        }
+    }
+    let Some((lang, tn, vn)) = cur else { return false };
+    if !(lang == Lang::P || lang == Lang::M) {
+        return false;
+    }
+    c.ops.iter().all(|o| match o {
+        Op::Open(u2, l, t, v) if *u2 == u => *l == lang && *v <= vn && ((*v == vn) == (*t == tn)),
+        Op::Change(u2, t, v) if *u2 == u => *v <= vn && ((*v == vn) == (*t == tn)),
         _ => true,
     })
 }
@@ -1194,14 +1234,16 @@ fn emit(rep: &mut Report, ctx: &mut Ctx, c: &Case, o: &Outcome) {
         } else {
             urls.iter()
                 .filter_map(|u| {
+                    // histories with commands: the class and the shape of C09_cmd_race_exact_partial (Model/C09Race.v)
+                    let kind = if c.ops.iter().any(is_command) { "race-url" } else { "batch-url" };
                     if !batch_in_class(c, *u) {
-                        rep.count("batch-url:outside-class");
+                        rep.count(&format!("{kind}:outside-class"));
                         Some(format!("~{}", u.tok()))
                     } else if stale.contains(u) {
-                        rep.count("batch-url:in-class-wrong(overtaken)");
+                        rep.count(&format!("{kind}:in-class-wrong(overtaken)"));
                         Some(u.tok())
                     } else {
-                        rep.count("batch-url:in-class-right");
+                        rep.count(&format!("{kind}:in-class-right"));
                         None
                     }
                 })
@@ -1677,6 +1719,57 @@ fn batch_history(r: &mut Rng, len: usize) -> Case {
     c
 }
 
+/// A race history (Model/C09Race.v): one or two plain-text / markdown documents are opened, then didChange messages of
+/// the first and add-word commands / configuration changes follow in a random order; the schedule keeps up to four
+/// of them in flight.  Returns the case and the number of messages that are handled one at a time first.
+fn race_history(r: &mut Rng) -> (Case, usize) {
+    let mut c = Case { cfg0: r.below(2), disk: vec![], udict: vec![], fdict: vec![], ops: vec![], sched: vec![], origin: "batch-race".into() };
+    let u0 = *r.pick(&[Url::File(0, 0), Url::File(0, 0), Url::Untitled(0)]);
+    let u1 = Url::File(0, 1);
+    if u0.is_file() && r.chance(2, 3) {
+        c.disk.push((u0, Text { tid: 7, ident: 0 }));
+    }
+    if r.chance(1, 4) {
+        c.udict.push(r.below(2));
+    }
+    let mut ver = 1 + r.below(2);
+    let mut tid = 0;
+    c.ops.push(Op::Open(u0, *r.pick(&[Lang::P, Lang::M]), Text { tid, ident: 0 }, ver));
+    let two = r.chance(1, 2);
+    if two {
+        c.ops.push(Op::Open(u1, *r.pick(&[Lang::P, Lang::M]), Text { tid: 20, ident: 0 }, 1));
+    }
+    // the didOpens are handled first (mostly): the race is between the messages that follow
+    let pre = if r.chance(4, 5) { c.ops.len() } else { 0 };
+    let n = r.range(2, 4);
+    let mut have_cmd = false;
+    let mut have_cfg = false;
+    for k in 0..n {
+        let last = k + 1 == n;
+        if (last && !have_cmd) || r.chance(1, 2) {
+            have_cmd = true;
+            let target = if two && r.chance(1, 3) { u1 } else { u0 };
+            // at most one configuration change per race (the cause attribution of the search oracle knows "sent later,
+            // finished earlier"; two overlapping configuration changes of which the later one STARTS first is a case it
+            // cannot name - see notes/C09.md, Next)
+            let k = if have_cfg { r.below(2) } else { r.below(3) };
+            c.ops.push(match k {
+                0 => Op::AddUser(r.below(2), target),
+                1 => Op::AddFile(2 + r.below(2), target),
+                _ => {
+                    have_cfg = true;
+                    Op::Cfg(r.below(2))
+                }
+            });
+        } else {
+            ver += 1 + r.below(2);
+            tid += 1;
+            c.ops.push(Op::Change(u0, Text { tid, ident: 0 }, ver));
+        }
+    }
+    (c, pre)
+}
+
 /// number of client-interaction steps each handler takes is discovered by running: a random schedule
 /// is built by running leniently (steps naming finished handlers are skipped) and keeping what was
 /// really executed.
@@ -2084,7 +2177,7 @@ fn random_race(r: &mut Rng, repeats: usize) -> Race {
 fn main() {
     let (args, corpus) = hv::cli();
     let mut rep = Report::new(&args.out);
-    rep.rule = "histories of didOpen/didChange/didSave/didClose/didChangeWatchedFiles/executeCommand/didChangeConfiguration over 4 documents (3 files in 2 directories, 1 untitled) in 4 languages (plaintext, markdown, python, unknown), 2 settings objects, user- and file-dictionary words; schedules at client-interaction granularity executed on the real Backend: corpus (the model's refuting schedules), sequential histories, random interleavings with <= 4 handlers in flight, bursts of 4 messages handled together, batches of didOpen/didChange/didSave/didClose with the didOpen in flight (run on the instruction-level model, shape verdicts compared with the real server), a malformed stream (messages for closed documents, double opens, inexecutable schedules); 2-4 add-word commands started together and polled one poll at a time in a random order (every word must arrive in its dictionary file); thorough adds ALL interleavings of every ordered pair / triple of the 5 messages of a session started in the batch (plain and source file), and ALL interleavings of every ordered pair of 10 messages (2 in flight) and of every ordered triple of 3-4 messages (3 in flight) after 4 prefixes (saved file + second document, dirty file, untitled + file, source code). non-trivial = distinct case with >= 2 messages and >= 1 publication".into();
+    rep.rule = "histories of didOpen/didChange/didSave/didClose/didChangeWatchedFiles/executeCommand/didChangeConfiguration over 4 documents (3 files in 2 directories, 1 untitled) in 4 languages (plaintext, markdown, python, unknown), 2 settings objects, user- and file-dictionary words; schedules at client-interaction granularity executed on the real Backend: corpus (the model's refuting schedules), sequential histories, random interleavings with <= 4 handlers in flight, bursts of 4 messages handled together, batches of didOpen/didChange/didSave/didClose with the didOpen in flight (run on the instruction-level model, shape verdicts compared with the real server), races of add-word commands / one configuration change with didChange of a plain-text or markdown document, up to 4 in flight (instruction-level model, verdict of race_overtaken on the trace of reads / writes / critical sections compared with the real server), a malformed stream (messages for closed documents, double opens, inexecutable schedules); 2-4 add-word commands started together and polled one poll at a time in a random order (every word must arrive in its dictionary file); thorough adds ALL interleavings of every ordered pair / triple of the 5 messages of a session started in the batch (plain and source file), and ALL interleavings of every ordered pair of 10 messages (2 in flight) and of every ordered triple of 3-4 messages (3 in flight) after 4 prefixes (saved file + second document, dirty file, untitled + file, source code). non-trivial = distinct case with >= 2 messages and >= 1 publication".into();
     let base = format!("/tmp/w-c09-{}", std::process::id());
     let rt = runtime();
     let _g = rt.enter();
@@ -2178,6 +2271,15 @@ fn main() {
             let plan = random_schedule_plan(&mut r, c.ops.len(), window);
             works.push(Work::Planned(c, plan));
         }
+        // races (Model/C09Race.v): add-word commands / configuration changes in flight with didChange; the driver adds the
+        // verdict of the shape race_overtaken of C09_cmd_race_exact_partial on the trace of reads, writes and critical sections
+        for _ in 0..args.scale(60, 400) {
+            let (c, pre) = race_history(&mut r);
+            let mut plan = sequential_plan(pre);
+            let rest = random_schedule_plan(&mut r, c.ops.len() - pre, 4);
+            plan.extend(rest.into_iter().map(|k| match k { K::Run(i) => K::Run(i + pre), k => k }));
+            works.push(Work::Planned(c, plan));
+        }
         // malformed stream
         for _ in 0..args.scale(60, 300) {
             let len = r.range(2, 7);
@@ -2236,6 +2338,9 @@ fn main() {
             "batch_urls_in_class_right": ex("batch-url:in-class-right"),
             "batch_urls_in_class_wrong": ex("batch-url:in-class-wrong(overtaken)"),
             "batch_urls_outside_class": ex("batch-url:outside-class"),
+            "race_urls_in_class_right": ex("race-url:in-class-right"),
+            "race_urls_in_class_wrong": ex("race-url:in-class-wrong(overtaken)"),
+            "race_urls_outside_class": ex("race-url:outside-class"),
         }),
     );
     rep.finish();
